@@ -26,6 +26,13 @@ def reply_objects(rng):
            {"error": "org.varlink.service.InterfaceNotFoundX", "parameters": {"interface": "a"}},
            {"error": "org.varlink.service", "parameters": {"interface": "a"}}, {"error": None, "parameters": {"z": 1}},
            {"unknown": 1, "parameters": {"k": 1}}]
+    # errors of other interfaces whose last component is one of the standard short names: not the standard errors
+    for name, (kind, member) in STD.items():
+        short = name.rsplit(".", 1)[1]
+        for pre in ("org.varlink.resolver.", "org.example.", "x.", ".", "", "org.varlink.service.x.", "org.varlink.Service."):
+            out.append({"error": pre + short, "parameters": {member: "the.arg", "hint": "h"}})
+        out.append({"error": name + ".", "parameters": {member: "the.arg"}})
+        out.append({"error": name.upper(), "parameters": {member: "the.arg"}})
     for name, (kind, member) in STD.items():
         out += [{"error": name, "parameters": {member: "the.arg"}}, {"error": name}, {"error": name, "parameters": {}},
                 {"error": name, "parameters": {member: None}}, {"error": name, "parameters": {member: 7}},
@@ -167,6 +174,21 @@ def c07(ck):
         n += 1
         lines.append("%s client %s | new new new new %s" % (cid, hx(b"".join(fr(x) for x in inbox)), " ".join(ops)))
         meta[cid] = ("seq", inbox, ops)
+    # (b') streams drained to their end: continuing items of every kind (successes, declared and standard errors with "continues": true,
+    # odd parameter shapes), then the final reply, then another call on the same connection
+    for i in range(len(robjs) + (60 if quick else 600)):
+        if i < len(robjs):
+            items = [dict(robjs[i], continues=True)] if i % 2 else [{"continues": True, "parameters": {"i": 0}}, dict(robjs[i], continues=True), {"continues": True, "parameters": {"i": 2}}]
+            final = {"parameters": {"last": 1}} if i % 3 else robjs[i]
+        else:
+            items = [dict(rng.choice(robjs), continues=True) if rng.random() < 0.6 else {"continues": True, "parameters": {"i": j}} for j in range(rng.randint(1, 5))]
+            final = rng.choice(robjs)
+        inbox = items + [final, {"parameters": {"second": 1}}]
+        ops = ["more:0"] + ["next:0"] * (len(items) + 2) + ["call:1"]
+        cid = "d%d" % n
+        n += 1
+        lines.append("%s client %s | new new %s" % (cid, hx(b"".join(fr(x) for x in inbox)), " ".join(ops)))
+        meta[cid] = ("drain", inbox, ops)
     impl, model = run_client_cases(ck, lines, model_ok)
     nd = 0
     for cid, m in meta.items():
@@ -201,6 +223,15 @@ def c07(ck):
                                         "reply": obj, "got": list(got), "expected": list(exp)})
             if f.get("idle") != "1":
                 ck.failures.append({"what": "connection not usable again after the final reply", "reply": obj})
+        elif kind == "drain":
+            inbox = m[1]
+            exp = [("unit",)] + [loads_tuple(expected_outcome(r)) for r in inbox[:-1]] + [("none",), ("ok", {"second": 1})]
+            if outs != exp or f.get("idle") != "1":
+                k = next((j for j in range(min(len(outs), len(exp))) if outs[j] != exp[j]), min(len(outs), len(exp)))
+                ck.failures.append({"what": "a reply stream is not reported reply by reply up to its final reply (each continuing reply, error or not, is one outcome and keeps the "
+                                            "connection with the call; the final one gives it back so that the next call goes through)",
+                                    "reply_stream": inbox, "ops": m[2], "first_difference_at_op": k, "got": [list(o) for o in outs[k:k + 2]],
+                                    "expected": [list(o) for o in exp[k:k + 2]], "idle_at_end": f.get("idle")})
         elif kind == "seq":
             ops = m[2]
             # writes: exactly one request per send that did not fail with busy / called-already, in order
